@@ -400,6 +400,7 @@ type Exec struct {
 	sched *scheduler
 	parseMemo map[string]*parseRes
 	atomicOps int
+	initRunning *ssa.Function
 	pools     map[*Cell][]Value
 	locks     map[*Cell]*lockState
 	timerObjs map[*Cell]*timerObj
